@@ -86,34 +86,40 @@ func vFormatArg(a interface{}) string {
 }
 
 func vSprintf(format string, a ...interface{}) string {
-	out := make([]byte, 0, len(format)+16)
+	// built by string concatenation so that formatted symbolic integers stay lazy in the engine
+	out := ""
 	ai := 0
+	start := 0
 	for i := 0; i < len(format); i++ {
-		c := format[i]
-		if c != '%' {
-			out = append(out, c)
+		if format[i] != '%' {
 			continue
 		}
+		out += format[start:i]
 		i++
 		// skip flags / width / precision
 		for i < len(format) && (format[i] == '+' || format[i] == '-' || format[i] == '#' || format[i] == ' ' || format[i] == '.' || (format[i] >= '0' && format[i] <= '9')) {
 			i++
 		}
 		if i >= len(format) {
+			start = i
 			break
 		}
+		start = i + 1
 		if format[i] == '%' {
-			out = append(out, '%')
+			out += "%"
 			continue
 		}
 		if ai < len(a) {
-			out = append(out, vFormatArg(a[ai])...)
+			out += vFormatArg(a[ai])
 			ai++
 		} else {
-			out = append(out, "%!(MISSING)"...)
+			out += "%!(MISSING)"
 		}
 	}
-	return string(out)
+	if start < len(format) {
+		out += format[start:]
+	}
+	return out
 }
 
 func vSprint(a ...interface{}) string {
